@@ -112,6 +112,26 @@ func ruleErrProp(r *Run, fn *ssa.Function, opts errPropOpts) {
 		o.Undecide(r.pos(fn.Pos()), "path enumeration aborted")
 		return
 	}
+	// an error assigned to a variable and never looked at (a check deleted, the variable re-declared
+	// by the next call): the extract exists - the blank identifier produces none - and has no use
+	for _, c := range callsIn(fn) {
+		call, ok := c.(*ssa.Call)
+		if !ok {
+			continue
+		}
+		tup, ok := call.Type().(*types.Tuple)
+		if !ok || tup.Len() < 2 || !isErrorType(tup.At(tup.Len()-1).Type()) {
+			continue
+		}
+		if _, ign := opts.Ignore[calleeName(call)]; ign {
+			continue
+		}
+		for _, ref := range *call.Referrers() {
+			if ex, ok := ref.(*ssa.Extract); ok && ex.Index == tup.Len()-1 && (ex.Referrers() == nil || len(*ex.Referrers()) == 0) {
+				o.Fail(r.pos(call.Pos()), "the error of %s is assigned and never examined: a failure of the call goes unnoticed and its other results are used", calleeName(call))
+			}
+		}
+	}
 	nFaultPaths := 0
 	sites := map[ssa.CallInstruction]bool{}
 	for _, e := range ends {
